@@ -62,7 +62,7 @@ func vhDisposeSlab(storage SlabStorage, id SlabID) {
 
 //vh:prop C01 C05 C09 C06 C03
 //vh:param leaves 2 3
-//vh:param perleaf 3 5
+//vh:param perleaf 3 4
 //vh:param symT 1 1
 func VH_C01_ArrayStep() {
 	vhThreshold()
